@@ -10,7 +10,7 @@ Evidence of these runs goes to build/seeded-evidence, never to /verif/evidence.
 """
 import json, os, subprocess, sys, shutil, time
 V = os.path.dirname(os.path.dirname(os.path.abspath(__file__)))
-SEEDED = os.path.join(V, "seeded")
+SEEDED = os.environ.get("VERIF_SEEDED_DIR", os.path.join(V, "seeded"))
 args = sys.argv[1:]
 inplace = "--inplace" in args
 tier = "quick"
